@@ -486,6 +486,29 @@ pub fn call(step: &Step) -> Outcome {
     }
 }
 
+/// The same call through the *other* mapper implementation (a fresh `MappedPageTable` over the
+/// harness's frame mapping), whatever the run's own view is.  Used where the documentation leaves
+/// the error kind open: the implementations must still agree with each other.
+pub fn call_twin(step: &Step) -> Outcome {
+    let root = run().model.root;
+    let res = sut_call("twin", || match with_mapper(false, &View::Mapped, root, false, |m| dispatch_on(m, step, false)) {
+        Ok(o) => o,
+        Err(e) => {
+            let mut o = Outcome::new(Code::Panic);
+            o.panic = Some(e);
+            o
+        }
+    });
+    match res {
+        Ok(o) => o,
+        Err(msg) => {
+            let mut o = Outcome::new(Code::Panic);
+            o.panic = Some(msg);
+            o
+        }
+    }
+}
+
 /// Execute several read-only steps with one mapper instance (one `sut_call`).
 pub fn call_many(steps: &[Step]) -> Result<Vec<Outcome>, String> {
     let r = run();
